@@ -32,6 +32,8 @@ type Answer struct {
 	Err     error     // transport error
 	ReadErr error     // body fails after the bytes in Body
 	After   func()    // runs after the response has been handed back (e.g. cancel the context)
+	// NoLength: the reply does not announce its length (chunked / close-delimited): ContentLength = -1 as net/http reports it.
+	NoLength bool
 }
 
 // Transport is a scripted http.RoundTripper. Handler runs on the calling goroutine.
@@ -115,7 +117,11 @@ func (t *Transport) RoundTrip(raw *http.Request) (*http.Response, error) {
 	if a.After != nil {
 		a.After()
 	}
-	return &http.Response{StatusCode: st, Status: http.StatusText(st), Header: h, Body: io.NopCloser(rd), Request: raw, ProtoMajor: 1, ProtoMinor: 1}, nil
+	cl := int64(len(a.Body))
+	if a.Lazy != nil || a.NoLength {
+		cl = -1
+	}
+	return &http.Response{StatusCode: st, Status: http.StatusText(st), Header: h, Body: io.NopCloser(rd), Request: raw, ProtoMajor: 1, ProtoMinor: 1, ContentLength: cl}, nil
 }
 
 // Requests returns a copy of the log.
